@@ -476,6 +476,84 @@ func vfC17SpellAbs(t *rapid.T, tgt string, otherDirs []string, label string, min
 	return raw, tr
 }
 
+// vfC17Decoys returns spellings under root that match the pattern segment by
+// segment as written, yet clean to tgt (a path under root).  At most 32 are
+// returned, in a fixed order.
+func vfC17Decoys(root, pattern, tgt string) (raws []string) {
+	rootSegs := strings.Split(root[1:], "/")
+	if !strings.HasPrefix(pattern, "/") || strings.Contains(pattern, "[/") {
+		// Relative patterns match nothing; a class holding the separator
+		// cannot be taken apart into segments.
+		return nil
+	}
+	patSegs := strings.Split(pattern[1:], "/")
+	if len(patSegs) <= len(rootSegs) {
+		return nil
+	}
+	for i, rs := range rootSegs {
+		if !vfC17Glob(patSegs[i], rs) {
+			return nil
+		}
+	}
+	patSegs = patSegs[len(rootSegs):]
+	if len(patSegs) > 6 {
+		return nil
+	}
+	tgtSegs := strings.Split(strings.TrimPrefix(tgt, root+"/"), "/")
+
+	cands := []string{".", "..", "allowed", "secret", "sub", "allowedx", "userfilters"}
+	for _, ts := range tgtSegs {
+		if !vfC17In(cands, ts) {
+			cands = append(cands, ts)
+		}
+	}
+
+	var rec func(i int, stack, raw []string)
+	rec = func(i int, stack, raw []string) {
+		if len(raws) >= 32 {
+			return
+		}
+		if i == len(patSegs) {
+			if strings.Join(stack, "/") == strings.Join(tgtSegs, "/") {
+				raws = append(raws, root+"/"+strings.Join(raw, "/"))
+			}
+
+			return
+		}
+		for _, c := range cands {
+			if c == "" || !vfC17Glob(patSegs[i], c) {
+				continue
+			}
+			next := stack
+			switch c {
+			case ".":
+				// Stays.
+			case "..":
+				if len(stack) == 0 {
+					continue
+				}
+				next = stack[:len(stack)-1]
+			default:
+				next = append(append([]string{}, stack...), c)
+			}
+			rec(i+1, next, append(append([]string{}, raw...), c))
+		}
+	}
+	rec(0, nil, nil)
+
+	return raws
+}
+
+func vfC17In(ss []string, s string) (ok bool) {
+	for _, x := range ss {
+		if x == s {
+			return true
+		}
+	}
+
+	return false
+}
+
 // URL-looking and relative forms of an absolute spelling.
 var (
 	vfC17URLForms = []string{
@@ -505,7 +583,26 @@ func (w *vfC17World) drawLoc(t *rapid.T, tgt, role, fam, label string) (loc vfC1
 	if fam == "abs" && rapid.IntRange(0, 4).Draw(t, label+"_plain") != 0 {
 		minTr = 1
 	}
-	abs, tr := vfC17SpellAbs(t, tgt, others, label, minTr)
+	var abs string
+	var tr []string
+	// A decoy: a spelling that, taken as it is written, matches one of the
+	// patterns, while the file it denotes does not.
+	if strings.HasPrefix(tgt, w.root+"/") && len(w.patterns) > 0 && !w.allowed(tgt) &&
+		rapid.IntRange(0, 2).Draw(t, label+"_decoy") == 0 {
+		var decoys []string
+		for _, p := range w.patterns {
+			decoys = append(decoys, vfC17Decoys(w.root, p.Text, tgt)...)
+		}
+		if len(decoys) > 0 {
+			abs, tr = rapid.SampledFrom(decoys).Draw(t, label+"_decoy_raw"), []string{"decoy"}
+			if c := path.Clean(abs); c != tgt {
+				t.Fatalf("VERIF-INCONCLUSIVE decoy %q cleans to %q, not to the target %q", abs, c, tgt)
+			}
+		}
+	}
+	if abs == "" {
+		abs, tr = vfC17SpellAbs(t, tgt, others, label, minTr)
+	}
 	loc = vfC17Loc{Raw: abs, Family: fam, Role: role, Target: tgt, Transforms: tr}
 
 	switch fam {
